@@ -56,6 +56,20 @@ func ZZ_C05_crash() {
 	zzsym.FreezeClock()
 	zzsym.FreezeTimers()
 	e, m, ex, H, P, roots := zzFullNode(2)
+	zzC05Run(e, m, ex, H, P, roots)
+}
+
+// ZZ_C05_fresh_crash: the same for a node that has not applied any block yet:
+// first start through the real NewManager on an empty store (any initial
+// height), the proposer's first two blocks, death at any durable write.
+func ZZ_C05_fresh_crash() {
+	zzsym.FreezeClock()
+	zzsym.FreezeTimers()
+	e, m, ex, H, P, roots := zzFreshFullNode(2)
+	zzC05Run(e, m, ex, H, P, roots)
+}
+
+func zzC05Run(e *zzEnv, m *Manager, ex *zzDetExec, H uint64, P []*zzSlot, roots [][]byte) {
 	equalTxs := len(P[0].data.Txs) > 0 && len(P[1].data.Txs) > 0 && bytes.Equal(P[0].data.Txs[0], P[1].data.Txs[0])
 	zzsym.Assume(!equalTxs) // equal tx lists: see C02 (known finding C02-K1)
 	e.store.crashAt = zzsym.Pick("crashAt1", 7)
@@ -93,7 +107,8 @@ func ZZ_C05_crash() {
 	// image after restart: height, state and blocks agree, blocks are the proposer's
 	h0 := e.store.height
 	zzsym.Assert(h0 >= H && h0 <= H+2, "recorded-height-in-range")
-	zzsym.Assert(e.store.state.LastBlockHeight == h0, "recorded-state-is-for-the-recorded-height")
+	// (a node that has not applied its first block has recorded no state yet)
+	zzsym.Assert((!e.store.hasState && h0 == H) || e.store.state.LastBlockHeight == h0, "recorded-state-is-for-the-recorded-height")
 	for k := 0; k < 2; k++ {
 		if H+uint64(k)+1 <= h0 {
 			sl := e.store.blocks[H+uint64(k)+1]
